@@ -38,7 +38,7 @@ class C02(core.Check):
                                        'const-from-const', 'label-before:instr', 'label-before:data', 'label-before:fill',
                                        'label-at-end', 'zerountil:behind-by-2+', 'zerountil:adjacent', 'zerountil:ahead',
                                        'global-redefined', 'global-redefined+origin-above-start', 'include-from:ZP', 'include-from:HI_z',
-                                       'include-from:GLOBAL']}
+                                       'include-from:GLOBAL', 'label-at-2**address_size']}
 
     def make_case(self, g, rng, extra_tags=()):
         isa = g.isa
@@ -158,6 +158,25 @@ class C02(core.Check):
                     if g.finish():
                         yield self.make_case(g, rng, ['zerountil-sweep', 'zerountil:' + ('behind-by-2+' if rel <= -2 else 'adjacent' if rel == -1 else 'ahead')])
 
+        # a label right after the byte that fills the last address: its value is 2**address_size, in every kind of reference
+        for ab in (8, 12, 16):
+            for k_ in range(3):
+                rng = core.rng_for(0, self.pid, 'top', ab, k_)
+                g = gen_prog.Structured(rng, ab, {'zones': False, 'vary_width': False, 'global_zone': False})
+                g.isa = gen_prog.layout_isa(ab)
+                g.zones = []
+                g.origin = 0
+                g.page = 1
+                top = (1 << ab) - 1
+                n_tail = [1, 3, 6][k_]
+                g.lines = [{'k': 'org', 'addr': top - n_tail - 7, 'zone_name': None},
+                           {'k': 'data', 'width': 2, 'vals': [{'ref': 'end_of_space', 'k': 0}, {'diff': ('end_of_space', 'tail_l')}]},
+                           {'k': 'label', 'name': 'tail_l', 'scope': 'g'},
+                           {'k': 'data', 'width': 4, 'vals': [{'ref': 'end_of_space', 'k': -1}]},
+                           {'k': 'data', 'width': 1, 'vals': [0x5A] * n_tail},
+                           {'k': 'label', 'name': 'end_of_space', 'scope': 'g'}]
+                if g.finish():
+                    yield self.make_case(g, rng, ['label-at-2**address_size', 'label-at-end'])
         # directed include cases: an included file is laid out from the GLOBAL cursor whatever zone its includer had selected,
         # its labels take those addresses, and the includer's next line follows its own zone's last byte
         zones = [{'name': 'ZP', 'start': 0x100, 'end': 0x17F}, {'name': 'HI_z', 'start': 0x300, 'end': 0x3FF}]
